@@ -200,7 +200,9 @@ func ZZ_C17_Append() {
 }
 
 // Date change: lines go to the old file until the cycle has run, then to the new day's
-// file (rotation on) or stay in the single file (rotation off).
+// file (rotation on) or stay in the single file (rotation off). A cycle runs at 23:59:40;
+// the next one on the same day / just after midnight (< 1 min later) / anywhere in the
+// next day / three days later.
 //vf: paths=2000
 func ZZ_C17_Rotate() {
 	home := zzvf.FsHome()
@@ -209,6 +211,10 @@ func ZZ_C17_Rotate() {
 	d1 := zzDayMs(2026, 12, 31)
 	zzvf.Clock = d1 + 23*3600000 + int64(zzvf.IntRange(0, 1800000))
 	lg := zzStart(home, logger.LOG_LEVEL_DEBUG, 0, 7, rotation)
+	// a cycle late in the evening (runs the once-a-minute retention tick)
+	tA := d1 + 23*3600000 + 59*60000 + 40000
+	zzvf.Clock = tA
+	lg.process()
 	name := func(ms int64) string {
 		if rotation {
 			return filepath.Join(home, "logs", "whatap-boot-"+zzYmd(ms)+".log")
@@ -220,17 +226,20 @@ func ZZ_C17_Rotate() {
 	zzvf.Assert(ok, "rotate/first-file-exists")
 	m1, m2, m3 := zzvf.String(2), zzvf.String(2), zzvf.String(2)
 	lg.Warn(m1)
-	cross := zzvf.Choose(3)
+	cross := zzvf.Choose(4)
 	d2 := d1
 	switch cross {
 	case 0: // same day
-		zzvf.Clock += int64(zzvf.IntRange(0, 1700000))
-	case 1: // next day
+		zzvf.Clock = tA + int64(zzvf.IntRange(0, 19999))
+	case 1: // next day, anywhere (less or more than a minute after the previous cycle)
 		d2 = d1 + 86400000
 		zzvf.Clock = d2 + int64(zzvf.IntRange(0, 86399999))
 	case 2: // several days later
 		d2 = d1 + 3*86400000
 		zzvf.Clock = d2 + int64(zzvf.IntRange(0, 86399999))
+	case 3: // just after midnight: less than a minute after the previous cycle
+		d2 = d1 + 86400000
+		zzvf.Clock = d2 + int64(zzvf.IntRange(0, 19999))
 	}
 	lg.Warn(m2) // before the cycle: still the open file
 	lg.process()
